@@ -43,7 +43,9 @@ ASSUMPTIONS = [
     "Neel vector along (1,1,1), because the default models have Kramers cones / Dirac points)",
     "NLDrude_Fermider2 (f'' form) needs about twice the linear grid density of the other forms; quick runs it on the 2D "
     "zoo models at 2400 K only, thorough adds 3D",
-    "k.p models of the design are not included (box-boundary terms need a separate treatment)",
+    "k.p: one 1-band model (anisotropic mass + tilt + cubic warping, analytic derivatives) in thorough only (no FFT: "
+    "30 ms per k-point); Fermi levels are limited to those whose occupied region (+8.5 kT) stays inside the k-box, "
+    "otherwise the two forms differ by boundary terms; multi-band k.p models are not covered",
     "Fermi-level step kT/10 (kT/5 leaves a 1-2 % binning error in the third-order tensors), smoother cut-off maxdE=8 kT, window padded by 8.5 kT on both sides",
 ]
 
@@ -70,6 +72,8 @@ MODELS = {
     "zoo3d_3": dict(kind="zoo", nw=3, lat="tric", rs="shell1", cen="generic", spread=3.0, dim=3),
     "zoo2d_2": dict(kind="zoo", nw=2, lat="mono", rs="planar", cen="generic", spread=2.0, dim=2),
     "zoo2d_3": dict(kind="zoo", nw=3, lat="hex", rs="planar", cen="thirds", spread=2.5, dim=2),
+    # one-band k.p model in the box |k_i| <= 1: anisotropic mass tensor + tilt + cubic warping, analytic derivatives
+    "kp_aniso": dict(kind="kp", dim=3),
     "Chiral": dict(kind="bundled", name="Chiral", dim=3),
     "Haldane_tbm": dict(kind="bundled", name="Haldane_tbm", dim=2),
     # Kane-Mele has Kramers cones at the TRIM (not smooth); an exchange field B.sigma (|B|=1 along (1,1,1)) added to the
@@ -125,6 +129,8 @@ def plan(tier):
         for p in ("BerryDipole", "GME_orb"):
             out.append(("Chiral", p, 4640, 16, 24))
         add("Chiral", "NLDrude2", 4640, CHIRAL_GRIDS[4640])
+        for p in ("Ohmic", "Hall_classic"):      # NLDrude is not converged at 24^3 (0.10 of the scale, falling)
+            out.append(("kp_aniso", p, 1200, 16, 24))
         for p in ("Ohmic", "Hall_classic", "GME_orb", "BerryDipole", "NLDrude"):
             add("Chiral", p, 2900, CHIRAL_GRIDS[2900])
     # ---- 2D
@@ -165,9 +171,50 @@ def cases(tier, seed):
         yield {"model": m, "pair": p, "T": T, "NK": [nc, nd]}
 
 
+KP_C = np.array([[3.0, 0.4, -0.3], [0.4, 4.0, 0.5], [-0.3, 0.5, 5.0]])      # inverse-mass tensor (positive definite)
+KP_W = np.array([0.4, -0.3, 0.2])                                            # tilt
+KP_G = 0.3                                                                    # cubic warping  g*(kx^3 + kx ky^2/2 - ky kz^2)
+
+
+def kp_energy(k):
+    k = np.asarray(k, dtype=float)
+    x, y, z = k[..., 0], k[..., 1], k[..., 2]
+    return np.einsum("...a,ab,...b->...", k, KP_C, k) + k @ KP_W + KP_G * (x ** 3 + 0.5 * x * y ** 2 - y * z ** 2)
+
+
+def build_kp():
+    import wannierberri as wb
+
+    def ham(k):
+        return np.array([[kp_energy(k)]], dtype=complex)
+
+    def dham(k):
+        x, y, z = k
+        g = 2 * KP_C @ np.asarray(k) + KP_W + KP_G * np.array([3 * x * x + 0.5 * y * y, x * y - z * z, -2 * y * z])
+        return g.reshape(1, 1, 3).astype(complex)
+
+    def d2ham(k):
+        x, y, z = k
+        h = 2 * KP_C + KP_G * np.array([[6 * x, y, 0], [y, x, -2 * z], [0, -2 * z, -2 * y]])
+        return h.reshape(1, 1, 3, 3).astype(complex)
+
+    def d3ham(k):
+        t = np.zeros((3, 3, 3))
+        t[0, 0, 0] = 6
+        for i, j, l in ((0, 1, 1), (1, 0, 1), (1, 1, 0)):
+            t[i, j, l] = 1
+        for i, j, l in ((1, 2, 2), (2, 1, 2), (2, 2, 1)):
+            t[i, j, l] = -2
+        return (KP_G * t).reshape(1, 1, 3, 3, 3).astype(complex)
+
+    return wb.system.SystemKP(Ham=ham, derHam=dham, der2Ham=d2ham, der3Ham=d3ham, kmax=1.0)
+
+
 def build_model(name, seed):
     from wbmc import zoo, models2d
     spec = MODELS[name]
+    if spec["kind"] == "kp":
+        return build_kp()
     if spec["kind"] == "zoo":
         # a fixed generic model (zoo entries drawn with the constant seed 0, so that gaps, band widths and hence the
         # discretisation error do not depend on VERIF_SEED) + a 5 % generic perturbation of every matrix driven by seed
@@ -212,15 +259,30 @@ def run_case(case, seed):
     s = build_model(mname, seed)
     sea_name, surf_names = PAIRS[pair]
     # ---- band range and smoothness premise from the harness H(k)
-    iR, HR = bh.ham_R(s)
-    n = 12 if spec["dim"] == 3 else 48
-    ax = np.arange(n) / n
-    if spec["dim"] == 3:
+    kT = bh.KB_EV * T
+    if spec["kind"] == "kp":
+        # the occupied region must stay inside the box: the window ends 8.5 kT (the smoother's reach) + 0.1 below the
+        # lowest energy found on the box surface; Emax below is that upper end, not the top of the (unbounded) band
+        ax = np.linspace(-1, 1, 41)
         kp = np.stack(np.meshgrid(ax, ax, ax, indexing="ij"), -1).reshape(-1, 3)
+        Eall = kp_energy(kp)
+        surface = np.abs(kp).max(axis=1) > 1 - 1e-9
+        E = Eall[:, None]
+        Emin = float(Eall.min())
+        Emax = float(Eall[surface].min()) - 8.5 * kT - 0.1
+        if Emax - Emin < 0.3:
+            return {"ok": False, "key": "harness:kp_window_empty", "detail": f"T={T}: [{Emin},{Emax}]"}
+        Emin, Emax = Emin - 0.05 * (Emax - Emin) / 0.9, Emax + 0.05 * (Emax - Emin) / 0.9   # undo the 5 % trimming below
     else:
-        kp = np.stack(np.meshgrid(ax, ax, [0.0], indexing="ij"), -1).reshape(-1, 3)
-    E = np.linalg.eigvalsh(bh.ham_k_many(iR, HR, kp))
-    Emin, Emax = float(E.min()), float(E.max())
+        iR, HR = bh.ham_R(s)
+        n = 12 if spec["dim"] == 3 else 48
+        ax = np.arange(n) / n
+        if spec["dim"] == 3:
+            kp = np.stack(np.meshgrid(ax, ax, ax, indexing="ij"), -1).reshape(-1, 3)
+        else:
+            kp = np.stack(np.meshgrid(ax, ax, [0.0], indexing="ij"), -1).reshape(-1, 3)
+        E = np.linalg.eigvalsh(bh.ham_k_many(iR, HR, kp))
+        Emin, Emax = float(E.min()), float(E.max())
     dgap = np.diff(E, axis=1)
     # smoothness premise: neighbouring bands are either degenerate everywhere (PT doublets) or separated everywhere
     degenerate_pairs = False
@@ -230,7 +292,6 @@ def run_case(case, seed):
         elif dgap[:, j].min() < GAP_MIN:
             return {"ok": True, "nontrivial": False,
                     "obs": {"skipped": f"premise: bands {j},{j + 1} approach to {dgap[:, j].min():.3f} < {GAP_MIN}"}}
-    kT = bh.KB_EV * T
     dE = kT / 10
     maxdE = 8
     W = Emax - Emin
